@@ -45,6 +45,10 @@ type muxCase struct {
 const (
 	knownDSTop  = "mux-ds-topmost-ancestor"
 	knownDSRoot = "mux-ds-root-shadows-parent"
+	// a DS query whose name is NOT itself a registered pattern: the longest registered suffix is
+	// already the zone that encloses the name from above (the parent side of a possible cut at the
+	// name); the library skips it and hands the query to the next registered ancestor
+	knownDSBelow = "mux-ds-below-apex-skips-enclosing-zone"
 )
 
 // capture is a ResponseWriter that records what is written.
@@ -160,11 +164,34 @@ func routeAt(c muxCase, nops int) (want int, matches []int, err error) {
 	switch {
 	case len(ms) == 0:
 		return -1, matches, nil
-	case c.QType == dns.TypeDS && len(ms) >= 2:
-		return ms[1].idx, matches, nil // the enclosing parent zone
+	case c.QType == dns.TypeDS && len(ms) >= 2 && len(ms[0].labels) == len(q):
+		// The question name is itself a registered zone (the child): the DS record set of a zone
+		// apex lives in the enclosing parent zone, i.e. the next-longest registered suffix.
+		return ms[1].idx, matches, nil
 	default:
+		// Every other DS query: the longest registered suffix is a proper ancestor of the name
+		// and therefore already the zone enclosing it from above - whether or not the name is a
+		// zone cut there, no zone further up holds anything for it.
 		return ms[0].idx, matches, nil
 	}
+}
+
+// apexAt: is the question name itself registered after the first nops operations?
+func apexAt(c muxCase, nops int) bool {
+	q, err := lowerLabels(c.QName)
+	if err != nil || c.NQ == 0 {
+		return false
+	}
+	apex := false
+	for _, op := range c.ops()[:nops] {
+		if op.Lookup {
+			continue
+		}
+		if l, err := lowerLabels(op.Pattern); err == nil && len(l) == len(q) && isSuffix(l, q) {
+			apex = !op.Remove
+		}
+	}
+	return apex
 }
 
 // removalClasses describes the HandleRemove operations of the case: whether one removes a name that is
@@ -211,10 +238,14 @@ func removalClasses(c muxCase) []string {
 	return out
 }
 
-// knownClass: DS routing classes of finding #15 (DESIGN §4).
-func knownClass(c muxCase, matches []int, rootRegistered bool) string {
+// knownClass: DS routing classes of finding #15 (DESIGN §4) and of the round-7 finding
+// (DS query for a name that is not itself registered, >= 2 registered suffixes).
+func knownClass(c muxCase, matches []int, rootRegistered bool, apex bool) string {
 	if c.QType != dns.TypeDS || c.NQ == 0 {
 		return ""
+	}
+	if !apex && len(matches) >= 2 {
+		return knownDSBelow
 	}
 	nonroot := len(matches)
 	if rootRegistered {
@@ -357,8 +388,15 @@ func checkMux(c muxCase) error {
 			removalMatters = true
 		}
 	}
-	if k := knownClass(c, matches, rootRegistered(c)); k != "" {
+	if k := knownClass(c, matches, rootRegistered(c), apexAt(c, len(c.ops()))); k != "" {
 		cls = append(cls, "known-class="+k)
+	}
+	if ds && len(matches) > 0 {
+		if apexAt(c, len(c.ops())) {
+			cls = append(cls, fmt.Sprintf("ds-qname=registered-apex/ancestors=%d", min(len(matches)-1, 3)))
+		} else {
+			cls = append(cls, fmt.Sprintf("ds-qname=below-the-zones/ancestors=%d", min(len(matches), 3)))
+		}
 	}
 	pbt.Note(kb, len(matches) >= 2 || removalMatters || len(c.QName) >= 240, cls...)
 
@@ -446,7 +484,7 @@ func runMux(c muxCase, want int, matches []int, step *atomic.Value) error {
 			if err != nil {
 				return nil
 			}
-			if k := knownClass(c, m, rootAt(c, i)); k != "" && excludedNow(k, c, m) {
+			if k := knownClass(c, m, rootAt(c, i), apexAt(c, i)); k != "" && excludedNow(k, c, m) {
 				continue
 			}
 			if err := lookup(i, w, m, fmt.Sprintf("ServeDNS at step #%d", i)); err != nil {
@@ -569,7 +607,16 @@ func eachLimitName(emit func(muxCase)) {
 						if wire == 1 && (rot > 0 || pats > 1) {
 							continue
 						}
-						emit(limitCase(limitName(wire, f, 0, 0, rot), pats, qt))
+						lc := limitCase(limitName(wire, f, 0, 0, rot), pats, qt)
+						// known DS routing findings: their class is left out of the enumeration
+						// while they reproduce (the A query of the same name and patterns stays)
+						if _, matches, err := route(lc); err == nil {
+							if k := knownClass(lc, matches, rootRegistered(lc), apexAt(lc, len(lc.ops()))); k != "" && excludedNow(k, lc, matches) {
+								pbt.Excluded(k)
+								continue
+							}
+						}
+						emit(lc)
 					}
 				}
 			}
@@ -705,7 +752,7 @@ func genMux(t *rapid.T) muxCase {
 	c.AD, c.TC = rapid.Bool().Draw(t, "ad"), rapid.Bool().Draw(t, "tc")
 	// known DS routing findings: while they reproduce, ask for another type instead
 	if _, matches, err := route(c); err == nil {
-		if k := knownClass(c, matches, rootRegistered(c)); k != "" && excludedNow(k, c, matches) {
+		if k := knownClass(c, matches, rootRegistered(c), apexAt(c, len(c.ops()))); k != "" && excludedNow(k, c, matches) {
 			pbt.Excluded(k)
 			c.QType = dns.TypeDNSKEY
 		}
@@ -717,6 +764,8 @@ func genMux(t *rapid.T) muxCase {
 // still reproduce. With the root registered and >= 3 nested zones both findings apply.
 func excludedNow(k string, c muxCase, matches []int) bool {
 	switch k {
+	case knownDSBelow:
+		return pbt.Known(knownDSBelow)
 	case knownDSTop:
 		return pbt.Known(knownDSTop)
 	case knownDSRoot:
@@ -852,6 +901,10 @@ func init() {
 
 	pbt.Probe(knownDSTop, func() error {
 		return checkMux(muxCase{Patterns: []string{"a.", "b.a.", "c.b.a."}, QName: "c.b.a.", QType: dns.TypeDS, NQ: 1, ID: 1})
+	})
+	// round 7: the question name is below the registered zones, not one of them
+	pbt.Probe(knownDSBelow, func() error {
+		return checkMux(muxCase{Patterns: []string{"example.com.", "com."}, QName: "www.example.com.", QType: dns.TypeDS, NQ: 1, ID: 1})
 	})
 	pbt.Probe(knownDSRoot, func() error {
 		return checkMux(muxCase{Patterns: []string{".", "a.", "b.a."}, QName: "b.a.", QType: dns.TypeDS, NQ: 1, ID: 1})
